@@ -32,6 +32,7 @@ class Unit:
     def __init__(self, kind, name, cls, params, ret):
         self.kind, self.name, self.cls, self.params, self.ret = kind, name, cls, params, ret
         self.locals = []
+        self.loopvars = []   # loop counters: renamable, never referenced after their loop
         self.body = []       # lines with {placeholders}
         self.free = set()    # bare field/static names used
         self.calls = set()   # unit names called
@@ -134,10 +135,27 @@ class Gen:
                 u.body.append("%s = %s + 1;" % (s, s))
             elif k < 0.85:
                 u.body.append('echo("%s:" + %s);' % (u.name, self.int_expr(u)))
-            elif u.locals:
+            elif k < 0.93 and u.locals:
                 v = r.choice(u.locals)
                 u.body.append("if ({%s} > %d) {" % (v, r.randint(0, 20)))
                 u.body.append("    {%s} = {%s} - %d;" % (v, v, r.randint(1, 5)))
+                u.body.append("}")
+            elif u.kind != "main":
+                # early return from inside a loop (the loop's scope must still be closed)
+                j = self.fresh("j")
+                u.loopvars.append(j)
+                form = r.choice(["for", "for", "while"])
+                lim = r.randint(1, 4)
+                if form == "for":
+                    u.body.append("for (int {%s} = 0; {%s} < %d; {%s} = {%s} + 1) {" % (j, j, lim, j, j))
+                else:
+                    u.body.append("int {%s} = 0;" % j)
+                    u.body.append("while ({%s} < %d) {" % (j, lim))
+                u.body.append("    if ({%s} == %d) {" % (j, r.randint(0, lim)))
+                u.body.append("        return %s;" % self.int_expr(u, 1))
+                u.body.append("    }")
+                if form == "while":
+                    u.body.append("    {%s} = {%s} + 1;" % (j, j))
                 u.body.append("}")
 
     def program(self):
@@ -176,7 +194,7 @@ class Gen:
         return self
 
     def names_of(self, u):
-        return u.locals + [p for p, _ in u.params] + [o for o, _ in getattr(u, "objs", [])]
+        return u.locals + u.loopvars + [p for p, _ in u.params] + [o for o, _ in getattr(u, "objs", [])]
 
     def render(self, rename=None):
         """rename: (unit name, old, new) or None"""
